@@ -9,7 +9,7 @@ pub fn rule_text(check: &str) -> String {
         "C13" => format!("{supply} For C13 the world is biased to the dangerous shape (threshold <= 1 or surplus signers, with 1-3 extra authorized valid links whose materials/products differ) and is verified 12 (quick) / 48 (thorough) times, each in a fresh thread with different injected hash-map keys and one of three file-creation orders; all repetitions must agree in verdict class and summary materials/products."),
         "C14" => "one run = one seed of one of four case kinds: (a) a supply-chain world whose link directory gets 1-4 storage faults before any signature is checked (bit flip, torn write, overwrite with NUL / multi-byte UTF-8, garbage, directory / dangling link / named pipe in place of a file, duplicate under another or an odd multi-byte name); (b) Byzantine-but-signed odd content (non-ASCII key ids, non-normalized paths, extreme thresholds and return values, odd step names / patterns / expiry strings, empty layout, self-delegation through a symlinked sub-directory, hostile text); (c) a real signed document, damaged, fed to the decoders and to block verification through a faulting stream (chunking, EINTR, EIO at an offset), or random bytes to calculate_hashes; (d) a key file (PKCS#8, SPKI DER, PEM, key JSON, raw ed25519) damaged by truncation / bit flips / overwrites / extreme length octets, fed to the key importers. One (a)/(b) world in four is an in-place update (time stamps as they come / preserved / older than before) of the same directory verified intact a moment earlier in the same process; one in ten has inspections whose commands print multi-byte or non-UTF-8 output of lengths around typical cut points and end with a failure status, a signal, or cannot be started. Every library call runs under catch_unwind in a worker process watched by the parent (abort, stack overflow, 60 s without progress). Distinct = digest of case kind, fault labels, outcome class and size class / world shape; all cases are non-trivial.".to_string(),
         "C06" => "one run = one sampled supply-chain world (delegation depth up to 2) x the whole grid: expiry-minus-clock in {-10y,-1d,-1s,-1ns,0,+1ns,+1s,+1d,+10y, year 9999} x notation in {Z,+00:00,+05:30,-11:00,+14:00,.5Z,.000000001Z,.999999999+05:30} x verifier instant in {1970-01-02, 2001, 2026, 2038-01-19T03:14:08Z, 2100, 9000} (3 of 6 in quick) x position of the expiring layout in {root, depth 1, depth 2} x clock {constant, jumping forward between reads}. Each cell is one evaluation; distinct = digest of world shape x cell; all cells are non-trivial (a clock fault is always present).".to_string(),
-        "C08" => "one run = one sampled supply-chain world with 1-2 inspections x the grid: failing stage in {none, corrupted / missing owner signature, expiry, missing link, outsider, forged signature, unmet threshold, dissent, failing step rule, failing delegated level, wrong-step signer, post-signing edit} x inspection outcome in {exit 0,1,2,126,255, SIGKILL, command not found, non-UTF-8 output} x file operations in {none, create, modify, delete+create a forbidden file}. Real fork/exec of the scripted actor; its own event log says whether it was started. Distinct = digest of world shape x cell. PIPELINE RUNS (the run indices beyond the grid worlds: 1024 quick / 10000 thorough, each with an inspection): the whole chain is carried out inside the simulator — 1-3 steps really executed with in_toto_run in their own workspaces on tmpfs (the command is a scripted actor process; the functionary names the workspace as '.', by absolute path with a strip-prefix, or by directory name from the parent), products handed to the next workspace by an artifact transport that may tamper with / inject / remove / rename a file, the signed links the library returns stored in the link directory, the last products delivered (through the transport again) to the verifier's working directory, in_toto_verify over it all, optionally with an inspection over the delivered product; rule lists derived from the flow (tight), perturbed, or random. Oracle: the reference model evaluated on snapshots the harness takes itself of every workspace before and after its command (own walk, one-shot digests), not on what the library recorded — everything else being valid by construction, the verdict must be Ok exactly if the model accepts every item; the recorded links must equal the snapshots (C18), no inspection may start after a step's rules failed (C08), the summary is the first step's materials and the last step's products (C15).".to_string(),
+        "C08" => "one run = one sampled supply-chain world with 1-2 inspections x the grid: failing stage in {none, corrupted / missing owner signature, expiry, missing link, outsider, forged signature, unmet threshold, dissent, failing step rule, failing delegated level, wrong-step signer, post-signing edit} x inspection outcome in {exit 0,1,2,126,255, SIGKILL, command not found, non-UTF-8 output} x file operations in {none, create, modify, delete+create a forbidden file}. Real fork/exec of the scripted actor; its own event log says whether it was started. Distinct = digest of world shape x cell. PIPELINE RUNS (the run indices beyond the grid worlds: 1024 quick / 4000 thorough, each with an inspection): the whole chain is carried out inside the simulator — 1-3 steps really executed with in_toto_run in their own workspaces on tmpfs (the command is a scripted actor process; the functionary names the workspace as '.', by absolute path with a strip-prefix, or by directory name from the parent), products handed to the next workspace by an artifact transport that may tamper with / inject / remove / rename a file, the signed links the library returns stored in the link directory, the last products delivered (through the transport again) to the verifier's working directory, in_toto_verify over it all, optionally with an inspection over the delivered product; rule lists derived from the flow (tight), perturbed, or random. Oracle: the reference model evaluated on snapshots the harness takes itself of every workspace before and after its command (own walk, one-shot digests), not on what the library recorded — everything else being valid by construction, the verdict must be Ok exactly if the model accepts every item; the recorded links must equal the snapshots (C18), no inspection may start after a step's rules failed (C08), the summary is the first step's materials and the last step's products (C15).".to_string(),
         "C03" => "one run = one seed: 1-3 steps with one valid authorized link each (so that every other verification stage passes by construction), artifacts over a small path universe with created / deleted / modified / unchanged files, products of one step handed to the next with optional prefix shift and in-transit faults (tamper, inject, remove, rename), rule lists of length 0-7 over all seven kinds (MATCH with and without either IN, referring to present, own and absent steps; DISALLOW with uninterpretable patterns now and then); a third of the worlds have one root inspection with a scripted command over a working directory that holds copies of the last products, and half of those a second one (it finds the first one's link file in the working directory; either may refer to the other's link). The verifier's verdict is compared both ways with the reference model of the specification's algorithm. Distinct = digest that includes the rule-kind sequence of every list, the reference verdict and the verifier's verdict class; all cases are non-trivial. PIPELINE RUNS (one run in sixteen): the whole chain is carried out inside the simulator — 1-3 steps really executed with in_toto_run in their own workspaces on tmpfs (the command is a scripted actor process; the functionary names the workspace as '.', by absolute path with a strip-prefix, or by directory name from the parent), products handed to the next workspace by an artifact transport that may tamper with / inject / remove / rename a file, the signed links the library returns stored in the link directory, the last products delivered (through the transport again) to the verifier's working directory, in_toto_verify over it all, optionally with an inspection over the delivered product; rule lists derived from the flow (tight), perturbed, or random. Oracle: the reference model evaluated on snapshots the harness takes itself of every workspace before and after its command (own walk, one-shot digests), not on what the library recorded — everything else being valid by construction, the verdict must be Ok exactly if the model accepts every item; the recorded links must equal the snapshots (C18), no inspection may start after a step's rules failed (C08), the summary is the first step's materials and the last step's products (C15).".to_string(),
         "C04" => "one run = one signing ceremony: a layout or link body, 1-5 signers of mixed key types, one of two construction paths, a wire form (compact, pretty, Json::to_writer through a chunking / EINTR writer), 0-3 channel faults on the signature messages (drop, duplicate, shuffle, swap values between labels, relabel, bit flip, re-sign by the same key, extra unauthorized signer, strip all), in one ceremony out of six a call the library refuses (signing with a misfit key, canonicalizing a non-integer number, decoding a torn document) made on the same thread right before signing and / or each verification, an authorized set (exact, duplicate, superset, subset, empty, disjoint, JSON alias) and a threshold in {0,1,m,m+1,random,u32::MAX}; verified 6 (quick) / 16 (thorough) times under different hash schedules and permutations of signatures and keys. Distinct = digest of labels, threshold class, sizes, per-signature truth, verdict set.".to_string(),
         "C09" => "one run = one ceremony (as C04) verified positively (threshold = number of signers after the wire trip) and then negatively: one authorized key replaced by another party's, 6 (quick) / 24 (thorough) single-bit flips of one signature, and every signer's key material re-declared under each of the three other schemes, with and without presenting the signature under the re-declared key's id. Each of these is one evaluation.".to_string(),
